@@ -4,6 +4,9 @@ usage: seed_check.py <seed-dir-name> <property> [check ids...]  (default: the pr
 import json, subprocess, sys, os, re, time
 seed, prop = sys.argv[1], sys.argv[2]
 checks = sys.argv[3:] or [prop]
+# SEED_CHECK_ALT=<dir>: use a scratch copy of the simulator (<dir>/sim, <dir>/bin, <dir>/known_findings.json)
+# so that /verif/bin/exosim and /verif/evidence stay untouched while a long run uses them
+ALT = os.environ.get('SEED_CHECK_ALT')
 d = f"/verif/seeded/{seed}"
 patch = f"{d}/patch.diff"
 assert subprocess.run(['git','-C','/repo','status','--porcelain'],capture_output=True,text=True).stdout.strip()=="" , "repo dirty"
@@ -12,7 +15,14 @@ res = {}
 try:
     for c in checks:
         t0=time.time()
-        p = subprocess.run(['/verif/check', c, 'quick'], capture_output=True, text=True, cwd='/verif')
+        if ALT:
+            env = dict(os.environ, EXOSIM_VERIF=ALT, GOFLAGS='-mod=mod', GOPROXY='off', GOSUMDB='off', GOTOOLCHAIN='local')
+            b = subprocess.run(['go', 'build', '-tags', 'verif', '-o', f'{ALT}/bin/exosim', './cmd/exosim'], cwd=f'{ALT}/sim', env=env, capture_output=True, text=True)
+            if not os.path.exists(f'{ALT}/bin/exosim') or 'error' in b.stderr.replace('ld: ', ''):
+                print('build trouble', b.stderr[-2000:])
+            p = subprocess.run([f'{ALT}/bin/exosim', 'check', '--prop', c, '--tier', 'quick', '--workers', os.environ.get('SEED_CHECK_WORKERS', '8')], capture_output=True, text=True, cwd=ALT, env=env)
+        else:
+            p = subprocess.run(['/verif/check', c, 'quick'], capture_output=True, text=True, cwd='/verif')
         out = p.stdout
         viol = [l for l in out.splitlines() if l.startswith('violation:')]
         res[c] = {"exit": p.returncode, "violation_classes": [v[len('violation: '):] for v in viol][:6], "wall_s": round(time.time()-t0,1),
@@ -29,5 +39,6 @@ meta["checks_run"] = res
 meta["detected_by"] = [c for c,v in res.items() if v["exit"]==1]
 json.dump(meta, open(meta_path,'w'), indent=1)
 # restore evidence files overwritten by the runs on the modified tree
-subprocess.run(['git','-C','/verif','checkout','--','evidence'],check=False)
+if not ALT:
+    subprocess.run(['git','-C','/verif','checkout','--','evidence'],check=False)
 print("detected_by", meta["detected_by"])
